@@ -97,9 +97,13 @@ func (e *Engine) externWrites(f *ssa.Function) *WriteSet {
 		(p == "strings" && f.Signature.Recv() != nil && strings.Contains(f.Signature.Recv().Type().String(), "Builder")):
 		// methods of bytes.Buffer / strings.Builder mutate only the receiver's own (unmodelled) state
 		e.abstract("bytes.Buffer / strings.Builder methods write only their receiver (opaque, trusted)")
+		if p == "bytes" {
+			e.bufExternWrites(f, w)
+		}
 		return w
 	case p == "encoding/binary" && f.Name() == "Write":
 		e.abstract("encoding/binary.Write writes only to its io.Writer argument (opaque, trusted)")
+		e.bufExternWrites(f, w)
 		return w
 	case p == "encoding/binary" && f.Name() == "Read":
 		// consumes from the reader; the destination pointer is accounted for at the call site (address passed)
@@ -287,6 +291,10 @@ func (e *Engine) callFunction(s *State, fr *Frame, dst *ssa.Call, f *ssa.Functio
 		return nil, false
 	}
 	if v, handled := e.modelList(s, fr, dst, key, f, args, site); handled {
+		setResult(v)
+		return nil, false
+	}
+	if v, handled := e.modelBuf(s, fr, dst, key, f, args, site); handled {
 		setResult(v)
 		return nil, false
 	}
@@ -837,7 +845,7 @@ func (e *Engine) applyAts(s *State, fr *Frame, anchor, when string, cc *ssa.Call
 			if err != nil {
 				e.bail("at %s set %s: %v", anchor, at.Target, err)
 			}
-			fr.ghosts[at.Target] = tv.V
+			fr.ghosts[at.Target] = e.nameGhostArray(s, at.Target, tv.V)
 		}
 	}
 }
